@@ -74,6 +74,11 @@ func (w *world) apply(op WOp) {
 		return // the prover is not updated after the proof was made
 	}
 	switch op.K {
+	case "upd", "readd", "del", "root", "commit", "delall", "restore":
+	default:
+		w.flushPending() // batches are only ever held back across updates and the next Commit()
+	}
+	switch op.K {
 	case "upd":
 		if len(op.V) == 0 {
 			return
@@ -265,14 +270,30 @@ func (w *world) commit(op WOp) {
 	}
 	wroteSomething := w.t.GetRoot() != nil && w.t.GetRoot().Dirty()
 	var err error
+	// a batch can only be held back when its commit collapses nothing (level 64: every node stays in memory);
+	// otherwise the live trie itself could not read the nodes it has just turned into hash references
+	deferred := op.D && w.has("C11") && level == 64
 	if w.guard("Commit", func() {
 		b, e := w.t.Commit(level)
 		if e != nil {
 			err = e
 			return
 		}
+		if deferred {
+			// the caller owns the batch: it is written later, after the next Commit() has run, in order
+			w.pending = append(w.pending, pendingBatch{commit: func() error { return b.Commit(op.Sync) }, n: len(w.commits), sync: op.Sync && wroteSomething})
+			w.stats.Inc("probe.batch-held-back-across-next-commit")
+			return
+		}
+		w.flushPending()
+		if w.v != nil {
+			return
+		}
 		err = b.Commit(op.Sync)
 	}) {
+		return
+	}
+	if w.v != nil {
 		return
 	}
 	if err != nil {
@@ -320,6 +341,9 @@ func (w *world) commit(op WOp) {
 		rec.blocks = blocks
 	}
 	w.commits = append(w.commits, rec)
+	if deferred {
+		return // judged when its batch has been written (flushPending)
+	}
 	if op.Sync && wroteSomething { // an empty batch does not reach the WAL, so it syncs nothing
 		w.syncedCommits = len(w.commits)
 	}
@@ -518,7 +542,44 @@ func (w *world) storeKeys() map[string]bool {
 }
 
 // final: C11 crash enumeration over every prefix of the storage write log.
+type pendingBatch struct {
+	commit func() error
+	n      int // index of its commit record
+	sync   bool
+}
+
+// flushPending writes the held-back batches in commit order and then judges their commits.
+func (w *world) flushPending() {
+	if len(w.pending) == 0 {
+		return
+	}
+	ps := w.pending
+	w.pending = nil
+	for _, p := range ps {
+		var err error
+		if w.guard("Batch.Commit (held back)", func() { err = p.commit() }) {
+			return
+		}
+		if err != nil {
+			w.fail("op-error", "commit:"+w.errClass(err), "writing a held-back batch returned %v", err)
+			return
+		}
+		if w.kv != nil && p.n < len(w.commits) {
+			w.commits[p.n].logIdx = w.kv.LogLen()
+		}
+		if p.sync {
+			w.syncedCommits = p.n + 1
+		}
+	}
+	// only the newest state is what a reopened trie has to equal (older ones may legitimately have been
+	// superseded by the later batch)
+	if last := ps[len(ps)-1]; last.n == len(w.commits)-1 && w.has("C11") && w.v == nil {
+		w.checkReopen(w.db.Get, &w.commits[last.n], "after-held-back-commit")
+	}
+}
+
 func (w *world) final() {
+	w.flushPending()
 	if !w.has("C11") || w.kv == nil {
 		return
 	}
